@@ -14,6 +14,12 @@ CHECKS = {
         note="Reference = the CPython 3.12 running the check. The comparison is my own recursive astdiff (not ast.dump). Domain exclusions (f-strings, '@(', BOM/NUL, nesting>50) are counted in the evidence.",
         ref="DESIGN.md §4 C01",
     ),
+    "C09": dict(
+        technique="differential property-based testing against CPython's tokenize: generated programs, layout variants, corpus, and systematic lexical fragments (numbers, strings, all operator-token pairs/triples, indentation structures)",
+        text="Exploration: on every generated text CPython's tokenize accepts (no f-strings, no xonsh-only characters, no '@('), the significant token sequence must equal CPython's in kind, text and coordinates (structural tokens: kind at the same index). Operator pairs are enumerated exhaustively in the quick tier, triples in the thorough tier. Held except the listed findings D23, D24, D40, D41.",
+        note="Reference = tokenize.generate_tokens of the running CPython 3.12; reference tokens whose coordinates contradict their own text (a CPython bug after non-ASCII text) are excluded and counted.",
+        ref="DESIGN.md §4 C09",
+    ),
     "C08": dict(
         technique="property-based testing: generated and mutated texts (Hypothesis-driven grammar, corpus, mutation, soup) against a pure tiling oracle over (text, token list)",
         text="Exploration: every generated text the tokenizer finishes on is checked against an oracle that needs nothing but the text and the token list (slice equality, order, gap shape, NEWLINE/INDENT/DEDENT/ENDMARKER structure). Held on everything generated; no proof.",
